@@ -15,7 +15,7 @@ META = {
         "nvdim, mask, filter class, multiplier class, mapping class, decade of cell); a case "
         "is non-trivial when the mesh has >= 2 cells along both axes and some cell is drawn."
     ),
-    "cases": {"quick": 560, "thorough": 4200},
+    "cases": {"quick": 560, "thorough": 12600},
     "workers": {"quick": 8, "thorough": 16},
     "timeout": {"quick": 600, "thorough": 5400},
     "deciding": [
